@@ -296,6 +296,10 @@ func c01KeyLess(a, b [3]int) bool {
 func searchC01() {
 	ck := &c01Ck{seen: map[string]int{}}
 	nRand := 12
+	thin := 1
+	if tier == "thorough" {
+		thin = 8
+	}
 	steps := stepCounts(20)
 	var nDeep, nRefl, nTermTimes, nFarSteps, nCrossYear, nLeapDays, nLunarSide int
 	var samples []string
@@ -362,14 +366,23 @@ func searchC01() {
 			if len(times) > 2 {
 				nTermTimes += len(times) - 2
 			}
+			termDay := len(times) > 2
+			var termTimes []hms
+			if termDay {
+				termTimes = append(termTimes, times[2:]...)
+			}
+			if tier == "thorough" && len(times) >= 2 {
+				times = append(times[:1], times[2:]...) // drop the second ordinary time, keep the term instants
+			}
 			times = append(times, hms{23, 30, 0})
-			if len(times) > 3 && len(samples) < 2 {
-				samples = append(samples, fmt.Sprintf("term day %s times %v", in3, times[2:]))
+			if termDay && len(samples) < 2 {
+				samples = append(samples, fmt.Sprintf("term day %s term instants +-1s %v", in3, termTimes))
 			}
 			// digest level for the first time of this day: reflection over every getter on a third of the days,
 			// incl. the heavy getters on a smaller sample; the complete field digest otherwise
+			// (thorough visits ~70x more days: the samples are thinned to keep a shard inside its budget)
 			dayLevel := -1
-			if k := rng.Intn(48); k == 0 {
+			if k := rng.Intn(48 * thin); k == 0 {
 				dayLevel = 2
 				nDeep++
 			} else if k < 4 {
@@ -436,7 +449,15 @@ func searchC01() {
 				// stepping: lunar side == civil side
 				j0 := c01Jdn(y, m, d)
 				ns := []int{1, -1, steps[rng.Intn(len(steps))] % 800}
-				if rng.Intn(10) == 0 {
+				far := true // steps leaving the civil year recompute year tables (~1 ms each): thinned at the thorough tier
+				if tier == "thorough" {
+					ns = []int{1 - 2*rng.Intn(2), rng.Intn(61) - 30}
+					far = rng.Intn(4) == 0
+					if far {
+						ns = append(ns, steps[rng.Intn(len(steps))]%800)
+					}
+				}
+				if rng.Intn(10*thin) == 0 {
 					ns = append(ns, steps[rng.Intn(len(steps))])
 					nFarSteps++
 				}
@@ -470,14 +491,14 @@ func searchC01() {
 				}
 				a := steps[rng.Intn(len(steps))] % 1200
 				b := steps[rng.Intn(len(steps))] % 1200
-				if rng.Intn(12) == 0 {
+				if rng.Intn(12*thin) == 0 {
 					a = steps[rng.Intn(len(steps))]
 					b = rng.Intn(8001) - 4000
 					if rng.Intn(2) == 0 {
 						b = -a + rng.Intn(801) - 400
 					}
 				}
-				if j0+a >= c01JdnLo && j0+a <= c01JdnHi && j0+a+b >= c01JdnLo && j0+a+b <= c01JdnHi {
+				if far && j0+a >= c01JdnLo && j0+a <= c01JdnHi && j0+a+b >= c01JdnLo && j0+a+b <= c01JdnHi {
 					ck.chk("next-compose", fmt.Sprintf("%s a=%d b=%d", in, a, b), func() (bool, string, string) {
 						r1 := l.Next(a).Next(b)
 						r2 := l.Next(a + b)
